@@ -142,7 +142,10 @@ def affines(draw, family: Optional[str] = None, rotated: Optional[bool] = None, 
         # rotated/sheared pixels a million times longer than wide make the 2x2 matrix so ill-conditioned that the
         # library's own documented tolerances (1e-8 px, isclose) are below float rounding of the inverse: keep the
         # anisotropy of rotated grids below 1e3 (axis-aligned grids keep the full range)
-        sy = math.copysign(abs(sx) * draw(st.sampled_from([1.0, 2.0, 0.5, 7.0, 0.3])), sy)
+        fac = draw(st.sampled_from([1.0, 2.0, 0.5, 7.0, 0.3]))
+        if not 1e-3 <= abs(sx) * fac <= 1e3:  # stay inside the magnitude range of the family
+            fac = 1.0 / fac
+        sy = math.copysign(abs(sx) * fac, sy)
     klass = []
     if sgnx < 0:
         klass.append("mirror_x")
